@@ -34,6 +34,12 @@ package h
 // in-memory layer sees the real clock there, i.e. its Trim drops every entry
 // (which can only turn an in-memory hit into a db lookup).
 //
+// Class trimrace covers what that leaves out: cachedb.Trim of ONE namespace (no map order involved) is run
+// by a task inside the bubble under the statement seam (c30Drv below): every SQL statement is a scheduling
+// point and a task with an open transaction or result set is pinned, which is exactly the exclusion sqlite
+// itself enforces, so point 2 cannot arise. Writes of other tasks can then land between two statements of
+// a Trim, but not inside its transaction.
+//
 // The same early return makes a failed Trim/Clear (class disk) stop at a
 // namespace that depends on the map order; see genC30 for how the disk class
 // keeps that out of the trace.
@@ -63,7 +69,7 @@ import (
 )
 
 type c30Op struct {
-	Op   string `json:"op"`             // write | read | trim | clear | sleep | sleepto | disk | reinit
+	Op   string `json:"op"`             // write | read | trim | trimns | clear | sleep | sleepto | disk | reinit
 	NS   int    `json:"ns,omitempty"`   // index into c30NS
 	Key  string `json:"key,omitempty"`  // write, read
 	ID   int    `json:"id,omitempty"`   // write: unique id, the value is "v<id>" (see VK); sleepto: the write whose expiry is aimed at
@@ -76,6 +82,8 @@ type c30W struct {
 	Legacy bool      `json:"legacy,omitempty"` // the db file exists already, with the tables as murex created them up to now (key STRING, value STRING): an upgrade
 	VK     string    `json:"vk,omitempty"`     // kind of every value of the case: "" the string "v<id>" | "u64" the number 2^63+id | "f" the number id+0.5
 	EvNS   uint32    `json:"evns,omitempty"`   // non-zero: the namespaces are two user-event namespaces that differ in one non-word character only
+	Final  []c30Op   `json:"final,omitempty"`  // run by one more task once every other task has finished (a later session: reinit, reads)
+	Seam   bool      `json:"seam,omitempty"`   // every SQL statement is a scheduling point; a task with an open transaction or result set is pinned
 }
 
 // c30Namespace: the namespace an operation's index stands for. With EvNS the case uses two per-event
@@ -124,6 +132,13 @@ func initC30(j *Job) {
 		}
 		return time.Now().Unix(), nil
 	})
+	// the statement-level seam (c30Drv): murex's dbConnect opens its connections through a wrapper of the
+	// same driver (mxinstr R7 made the driver name settable)
+	if db, err := sql.Open(sqlite3.DriverName(), "file::memory:"); err == nil {
+		sql.Register("sqlite-mxsim", &c30Drv{inner: db.Driver()})
+		db.Close()
+		sqlite3.SimSetDriverName("sqlite-mxsim")
+	}
 	// One task runs at a time, so extra processors only add hand-off cost; every sqlite connection maps and
 	// unmaps memory, which is far cheaper in a process that runs on one CPU (measured: 3.6x more cases per
 	// second with 16 workers). The driver's determinism re-runs set GOMAXPROCS themselves and are left alone.
@@ -243,6 +258,102 @@ func c30Head(s string, n int) string {
 	return s
 }
 
+// c30Drv: the statement-level seam. It hands every call to modernc's driver unchanged. While c30Seam is on
+// (cases that run cachedb.Trim inside the bubble) every statement is a scheduling point, and a task that has
+// a transaction or a result set open is pinned: with the shared cache another connection that touches the
+// same table would wait inside sqlite on a real mutex until the transaction ends (header, point 2), so on
+// a real scheduler nobody else could have made progress on that table either. What remains visible to the
+// scheduler is exactly the interleaving sqlite allows: statement by statement outside transactions.
+type c30Drv struct{ inner driver.Driver }
+
+var c30Seam atomic.Bool
+
+func (d *c30Drv) Open(name string) (driver.Conn, error) {
+	c, err := d.inner.Open(name)
+	if err != nil {
+		return nil, err
+	}
+	return &c30Conn{c}, nil
+}
+
+type c30Conn struct{ driver.Conn }
+
+func c30Point(site string) {
+	if c30Seam.Load() {
+		simrt.Yield(site)
+	}
+}
+
+func c30Pin() func() {
+	if c30Seam.Load() {
+		return simrt.Pin()
+	}
+	return func() {}
+}
+
+func (c *c30Conn) BeginTx(ctx context.Context, opts driver.TxOptions) (driver.Tx, error) {
+	c30Point("sql-begin")
+	tx, err := c.Conn.(driver.ConnBeginTx).BeginTx(ctx, opts)
+	if err != nil {
+		return nil, err
+	}
+	return &c30Tx{tx, c30Pin()}, nil
+}
+
+func (c *c30Conn) PrepareContext(ctx context.Context, q string) (driver.Stmt, error) {
+	return c.Conn.(driver.ConnPrepareContext).PrepareContext(ctx, q)
+}
+
+func (c *c30Conn) ExecContext(ctx context.Context, q string, args []driver.NamedValue) (driver.Result, error) {
+	c30Point("sql-exec")
+	return c.Conn.(driver.ExecerContext).ExecContext(ctx, q, args)
+}
+
+func (c *c30Conn) QueryContext(ctx context.Context, q string, args []driver.NamedValue) (driver.Rows, error) {
+	c30Point("sql-query")
+	rows, err := c.Conn.(driver.QueryerContext).QueryContext(ctx, q, args)
+	if err != nil {
+		return nil, err
+	}
+	return &c30Rows{rows, c30Pin()}, nil
+}
+
+func (c *c30Conn) Ping(ctx context.Context) error {
+	if p, ok := c.Conn.(driver.Pinger); ok {
+		return p.Ping(ctx)
+	}
+	return nil
+}
+
+func (c *c30Conn) ResetSession(ctx context.Context) error {
+	if p, ok := c.Conn.(driver.SessionResetter); ok {
+		return p.ResetSession(ctx)
+	}
+	return nil
+}
+
+func (c *c30Conn) IsValid() bool {
+	if p, ok := c.Conn.(driver.Validator); ok {
+		return p.IsValid()
+	}
+	return true
+}
+
+type c30Tx struct {
+	driver.Tx
+	unpin func()
+}
+
+func (t *c30Tx) Commit() error   { err := t.Tx.Commit(); t.unpin(); return err }
+func (t *c30Tx) Rollback() error { err := t.Tx.Rollback(); t.unpin(); return err }
+
+type c30Rows struct {
+	driver.Rows
+	unpin func()
+}
+
+func (r *c30Rows) Close() error { err := r.Rows.Close(); r.unpin(); return err }
+
 // c30Outside runs f to completion on the goroutine outside the bubble. The
 // calling task is blocked on a channel that does not belong to the bubble, so
 // for synctest it is simply running: no decision is taken and the fake clock
@@ -273,6 +384,8 @@ func genC30(r *Rand, tier string) Case {
 		class = "conc"
 	case x < 13:
 		class = "disk"
+	case x >= 17:
+		return genC30TrimRace(r)
 	}
 	nt := 1
 	if class == "conc" {
@@ -379,6 +492,72 @@ func genC30(r *Rand, tier string) Case {
 	return Case{Class: class, W: mustJSON(w), Sched: sc}
 }
 
+// genC30TrimRace: Trim of one namespace runs inside the schedule (statement seam) while other tasks refresh
+// keys whose entries have expired - what every completion lookup does on a stale entry. A later session
+// (Final: the in-memory layer is dropped) reads the keys back.
+func genC30TrimRace(r *Rand) Case {
+	var w c30W
+	w.Seam = true
+	nk := 1 + r.Intn(3)
+	keys := append([]string{}, c30Keys[r.Intn(4):][:nk]...)
+	id := 0
+	var t0, t1 []c30Op
+	var sleepNeeded bool
+	for _, k := range keys { // expired entries
+		id++
+		ms := []int64{-3660000, -2000, -1001, 400, 900}[r.Intn(5)]
+		if ms > 0 {
+			sleepNeeded = true
+		}
+		t0 = append(t0, c30Op{Op: "write", Key: k, ID: id, Ms: ms})
+	}
+	if sleepNeeded || r.Intn(3) == 0 {
+		t0 = append(t0, c30Op{Op: "sleep", Ms: []int64{2000, 3000, 59000}[r.Intn(3)]})
+	}
+	// the refreshing task does not start before the stale entries are there (mostly)
+	nt := 2 + r.Intn(2)
+	w.Tasks = make([][]c30Op, nt)
+	for ti := 1; ti < nt; ti++ {
+		t1 = nil
+		if r.Intn(3) > 0 {
+			t1 = append(t1, c30Op{Op: "read", Key: r.Pick(keys)})
+		}
+		for n := 1 + r.Intn(3); n > 0; n-- {
+			switch r.Intn(5) {
+			case 0:
+				t1 = append(t1, c30Op{Op: "read", Key: r.Pick(keys)})
+			case 1:
+				t1 = append(t1, c30Op{Op: "trimns"})
+			default:
+				id++
+				t1 = append(t1, c30Op{Op: "write", Key: r.Pick(keys), ID: id, Ms: []int64{60000, 3600000, 86400000}[r.Intn(3)]})
+			}
+		}
+		w.Tasks[ti] = t1
+	}
+	for n := 1 + r.Intn(2); n > 0; n-- {
+		t0 = append(t0, c30Op{Op: "trimns"})
+		if r.Intn(3) == 0 {
+			t0 = append(t0, c30Op{Op: "read", Key: r.Pick(keys)})
+		}
+	}
+	w.Tasks[0] = t0
+	if sleepNeeded {
+		// the refreshers wait for the entries to expire, too
+		for ti := 1; ti < nt; ti++ {
+			w.Tasks[ti] = append([]c30Op{{Op: "sleep", Ms: 1900}}, w.Tasks[ti]...)
+		}
+	}
+	if r.Intn(4) > 0 {
+		w.Final = append(w.Final, c30Op{Op: "reinit"})
+	}
+	for _, k := range keys {
+		w.Final = append(w.Final, c30Op{Op: "read", Key: k})
+	}
+	sc := defaultSched(r, 60, 20000, 0)
+	return Case{Class: "trimrace", W: mustJSON(w), Sched: sc}
+}
+
 // ---------------------------------------------------------------- run
 
 type c30Ev struct {
@@ -456,7 +635,11 @@ func runC30(c *Case, e *Env) Outcome {
 	faults := map[string]int{}
 	probes := map[string]int{}
 	task := func(ti int) {
-		for oi, op := range w.Tasks[ti] {
+		ops := w.Final
+		if ti < len(w.Tasks) {
+			ops = w.Tasks[ti]
+		}
+		for oi, op := range ops {
 			site := "t" + strconv.Itoa(ti) + "op" + strconv.Itoa(oi)
 			simrt.Yield(site)
 			ev := c30Ev{Task: ti, Idx: oi, Op: op}
@@ -505,6 +688,13 @@ func runC30(c *Case, e *Env) Outcome {
 						probes["error-without-disk-fault"]++
 					}
 				}
+			case "trimns":
+				// the database half of Trim for one namespace, run by the task itself under the statement seam
+				if _, err := cachedb.Trim(context.Background(), ns); err != nil {
+					ev.Err = err.Error()
+					probes["trimns-returned-error"]++
+				}
+				probes["trim-inside-the-schedule"]++
 			case "sleep":
 				c30SleepFor(time.Duration(op.Ms)*time.Millisecond, site+"z")
 			case "sleepto":
@@ -552,12 +742,21 @@ func runC30(c *Case, e *Env) Outcome {
 		}
 	}
 	c30Cur.Store(watch)
+	c30Seam.Store(w.Seam)
 	res := e.Bubble(c.Sched, func() {
+		fin := make(chan struct{}, len(w.Tasks))
 		for ti := range w.Tasks {
 			ti := ti
-			simrt.Go(func() { task(ti) })
+			simrt.Go(func() { task(ti); fin <- struct{}{} })
+		}
+		if len(w.Final) > 0 {
+			for range w.Tasks {
+				<-fin
+			}
+			task(len(w.Tasks))
 		}
 	})
+	c30Seam.Store(false)
 	c30Cur.Store(nil)
 	for _, k := range sortedKeys(faults) {
 		for i := 0; i < faults[k]; i++ {
@@ -720,7 +919,7 @@ func c30Check(hist []c30Ev, e *Env) (Outcome, bool) {
 		if must {
 			trim := ""
 			for k := range hist {
-				if t := &hist[k]; t.Op.Op == "trim" && t.Call > last.Ret && t.Ret < r.Call {
+				if t := &hist[k]; (t.Op.Op == "trim" || t.Op.Op == "trimns") && t.Call < r.Ret && t.Ret > last.Call {
 					trim = " (a Trim ran in between)"
 				}
 			}
